@@ -46,6 +46,18 @@ CLAIMED["C07"] = (
     "custom AST dataflow: dependency cones (information-flow necessity), path/branch coverage of state-shrinking constructs (static analysis)",
     "DESIGN.md section 5, C07",
 )
+CLAIMED["C06"] = (
+    "Static guard-dominance, effect-discipline, positional and must-pass-through rules on the two setup/compute "
+    "overlap patterns and ScopedSetupWithInputs: block-level moves need exactly two users (this setup and a launch in "
+    "the same block) and a resolved side-effect-free closure; ops only move upwards; the loop-level pattern needs the "
+    "loop's own block argument as in_state and no launch user of the loop-carried state (nested ones included), "
+    "substitutes (lb,*iter_args) / (iv+step,*yield operands) for (iv,*carried), redirects init operand 3+k and yield "
+    "operand k, and erases the original only after both copies are in place on every path. Necessary conditions for all "
+    "executions of the pass code; does not decide register contents at run time.",
+    WALKER_NOTE,
+    "custom AST dataflow: must-facts / guard dominance per path class, must-pass-through events, template matching of substitution tuples (static analysis)",
+    "DESIGN.md section 5, C06",
+)
 NOT_APPLICABLE = {
     "C02": "address-stream equality is integer arithmetic over runtime strides/bounds; no structural necessary condition carries weight (DESIGN.md section 5, C02)",
 }
